@@ -413,6 +413,11 @@ fn run_part<const N: usize>(ctx: &Ctx, sh: &mut Shard, rng: &mut Rng, part: u64)
     cfg.mt = part % 3 != 0;
     cfg.bloom = (part % 2) as u8;
     cfg.allow_dup = true;
+    // half of the cases regenerate the index with data validation on: unaltered data of every size (also
+    // values shorter than a record header, empty values and markers) must survive it - the positive control of
+    // the corruption half
+    cfg.validate_data = (part / 3) % 2 == 1;
+    sh.add(if cfg.validate_data { "cases_data_validation_on" } else { "cases_data_validation_off" }, 1);
     let case_seed = rng.next();
     // round trip
     let dir = new_dir("c05r-");
